@@ -64,6 +64,22 @@ def rs_shapes(tier, seed):
                 sh.append(('slice', x, n // 2, n))
                 sh.append(('compose', ((('slice', x, 0, n // 2), 0, n // 2), (('slice', c, n // 2, n), n // 2, n))))
                 sh.append(('compose', ((('slice', c, 0, n // 2), 0, n // 2), (('slice', x, 0, n // 2), n // 2, n))))
+        # slices over concatenations of 2-4 slots: windows inside one slot, across a cut, and covering whole inner slots; and the
+        # other node kinds over a concatenation (every slot is a child of its own)
+        if n == 32:
+            x8, y8, z16, h16 = ('id', 'x', 8), ('id', 'y', 8), ('id', 'z', 16), ('id', 'h', 16)
+            m8 = ('mem', p, 8)
+            sm8 = ('smem', ('op', '+', (p, q)), 8, ('id', 'ds', 16))
+            comps = [('compose', ((x8, 0, 8), (y8, 8, 16), (z16, 16, 32))), ('compose', ((x8, 0, 8), (m8, 8, 16), (z16, 16, 32))),
+                     ('compose', ((h16, 0, 16), (sm8, 16, 24), (y8, 24, 32))), ('compose', ((x8, 0, 8), (y8, 8, 16), (m8, 16, 24), (('id', 'w', 8), 24, 32))),
+                     ('compose', ((h16, 0, 16), (('mem', ('mem', q, 32), 16), 16, 32)))]
+            for cp in comps:
+                sh.append(cp)
+                for lo, hi in ((0, 8), (4, 12), (4, 20), (8, 16), (8, 24), (12, 28), (0, 32), (16, 32), (2, 30)):
+                    sh.append(('slice', cp, lo, hi))
+                sh.append(('op', '+', (cp, a)))
+                sh.append(('cond', cp, a, b))
+                sh.append(('mem', cp, 8))
         # uninterpreted operator of the lifter
         sh.append(('op', 'MMX', (a, segm)))
         sh.append(('op', 'fadd', (mem, b)))
